@@ -1653,6 +1653,13 @@ func (x *Exec) selector(st *State, e *ast.SelectorExpr, k func(*State, Term)) {
 				k(st, Term{S: fmt.Sprintf("(%s_%s %s)", base.Sort, sanitizeSym(f.Name()), base.S), Sort: fs, T: f.Type()})
 				return
 			}
+			if base.Sort != "" && named != nil {
+				// a struct value of a type the engine keeps opaque (a dependency's struct): its fields are
+				// uninterpreted projections of the value
+				fn := x.d.fun("fld_"+sanitizeSym(named.Obj().Name()+"_"+f.Name()), []string{base.Sort}, fs)
+				k(st, Term{S: fmt.Sprintf("(%s %s)", fn, base.S), Sort: fs, T: f.Type()})
+				return
+			}
 			x.undecide("field of opaque struct value at %s", x.prog.pos(e))
 		})
 	case types.MethodVal:
